@@ -67,7 +67,8 @@ class MsgGen:
         body = hb
         auth_fields = []
         if nsess:
-            ss = [self.session(False, decrypt=decrypt and i == 0, encrypt=encrypt and i == 0) for i in range(nsess)]
+            # nsess == -1: session tag with authSize 0 (an authorization area that is present and empty)
+            ss = [self.session(False, decrypt=decrypt and i == 0, encrypt=encrypt and i == 0) for i in range(max(nsess, 0))]
             sb = b"".join(b for _, b in ss)
             asz = self.u32("UINT32", len(sb))
             auth_fields = [("authSize", asz[0]), ("authorizationArea", ("L", [v for v, _ in ss]))]
@@ -79,7 +80,7 @@ class MsgGen:
         ccv = ("I", "TPM_CC", cc)
         fields = [("tag", tag), ("commandSize", csz), ("commandCode", ccv), ("handles", hv)] + auth_fields + [("parameters", pv)]
         data = tagv.to_bytes(2, "big") + total.to_bytes(4, "big") + cc.to_bytes(4, "big") + body
-        return ("O", "Command", False, fields), data, {"cc": cc, "nsess": nsess, "decrypt": decrypt, "encrypt": encrypt}
+        return ("O", "Command", False, fields), data, {"cc": cc, "nsess": max(nsess, 0), "decrypt": decrypt, "encrypt": encrypt, "empty_area": nsess < 0}
 
     def response(self, cc, nsess=0, encrypt=False, rc=0):
         if rc:
@@ -102,7 +103,7 @@ class MsgGen:
         if nsess:
             psz = self.u32("UINT32", len(pb))
             mid = [("parameterSize", psz[0])]
-            ss = [self.session(True, encrypt=encrypt and i == 0) for i in range(nsess)]
+            ss = [self.session(True, encrypt=encrypt and i == 0) for i in range(max(nsess, 0))]
             sb = b"".join(b for _, b in ss)
             body += psz[1] + pb + sb
             tail = [("authorizationArea", ("L", [v for v, _ in ss]))]
@@ -112,12 +113,12 @@ class MsgGen:
         fields = [("tag", ("I", "TPM_ST", tagv)), ("responseSize", ("I", "UINT32", total)), ("responseCode", ("I", "TPM_RC", 0)),
                   ("handles", hv)] + mid + [("parameters", pv)] + tail
         data = tagv.to_bytes(2, "big") + total.to_bytes(4, "big") + (0).to_bytes(4, "big") + body
-        return ("O", "Response", False, fields), data, {"cc": cc, "nsess": nsess, "encrypt": encrypt, "rc": 0}
+        return ("O", "Response", False, fields), data, {"cc": cc, "nsess": max(nsess, 0), "encrypt": encrypt, "rc": 0, "empty_area": nsess < 0}
 
     def pair(self, cc=None, allow_enc=True):
         """a command and its response, consistent with each other (response encryption iff requested)"""
         cc = cc if cc is not None else self.rnd.choice(self.ccs)
-        nsess = self.rnd.choice([0, 0, 1, 1, 2, 3])
+        nsess = self.rnd.choice([0, 0, 1, 1, 2, 3, -1])
         decrypt = allow_enc and nsess > 0 and self.can_encrypt(cc, False) and self.rnd.random() < 0.35
         encrypt = allow_enc and nsess > 0 and self.can_encrypt(cc, True) and self.rnd.random() < 0.35
         c = self.command(cc, nsess, decrypt, encrypt)
@@ -125,7 +126,7 @@ class MsgGen:
             r = self.response(cc, rc=self.rnd.choice([0x101, 0x1C4, 0x922, 0x9A2, 0x84, 0x18B]))
         else:
             # response encryption requires a session area in the response too
-            rn = max(nsess, 1) if encrypt else nsess
+            rn = max(nsess, 1) if encrypt else self.rnd.choice([nsess, nsess, nsess, -1 if nsess else 0])
             r = self.response(cc, rn, encrypt)
         if c is None or r is None:
             return None
